@@ -35,7 +35,7 @@ def generate(rseed, tier='quick'):
   pool = editgen.regex_pool(r, spec, escape=mdesc['kind'] == 'corpus')
   knobs = {
       'faults': r.random() < 0.8,
-      'container': r.choice(['list', 'gen', 'iter', 're']),
+      'container': r.choice(['list', 'gen', 'iter', 're', 'tuple', 'reuse']),
       'two_objects': r.random() < 0.7,
       'durable_roundtrip': r.random() < 0.7,
       'explicit_signature_key': r.random() < 0.4,
@@ -337,8 +337,10 @@ def execute(doc):
         rec.fault('stream_fail_first')
       if fail_at >= len(chunk) - 1:
         rec.fault('stream_fail_last')
-    if container in ('gen', 'iter') or (fault and container == 'list'):
+    if container in ('gen', 'iter', 'reuse') or (fault and container in ('list', 'tuple')):
       rec.fault('one_shot_stream')
+    if container == 'reuse':
+      rec.fault('buffer_reusing_stream')
     if op.get('retry'):
       rec.probe('retry')
     if outcome == 'returned':
